@@ -5,9 +5,9 @@ mod verif_c20 {
     use crate::verif_probes::*;
     use crate::verif_ref::*;
     use crate::*;
-    use crc::{Crc, CRC_32_ISCSI};
+    use crc::{Crc, CRC_8_SMBUS};
 
-    static C32: Crc<u32> = Crc::<u32>::new(&CRC_32_ISCSI);
+    static C8: Crc<u8> = Crc::<u8>::new(&CRC_8_SMBUS);
 
     /// user flavour WITH a try_extend override
     struct RecExt {
@@ -71,14 +71,10 @@ mod verif_c20 {
     fn expected_stack(v: &PTup, out: &mut [u8; 16]) -> usize {
         let mut inner = [0u8; 12];
         let pl = to_slice(v, &mut inner[..4]).unwrap().len();
-        let a = CRC_32_ISCSI;
-        let c = ref_crc(32, a.poly as u128, a.init as u128, a.refin, a.refout, a.xorout as u128, &inner[..pl]);
-        let mut k = 0;
-        while k < 4 {
-            inner[pl + k] = (c >> (8 * k)) as u8;
-            k += 1;
-        }
-        let n = ref_cobs(&inner[..pl + 4], out);
+        let a = CRC_8_SMBUS;
+        let c = ref_crc(8, a.poly as u128, a.init as u128, a.refin, a.refout, a.xorout as u128, &inner[..pl]);
+        inner[pl] = c as u8;
+        let n = ref_cobs(&inner[..pl + 1], out);
         out[n] = 0;
         n + 1
     }
@@ -91,14 +87,22 @@ mod verif_c20 {
         let mut want = [0u8; 16];
         let wl = expected_stack(&v, &mut want);
         let mut buf = [0u8; 16];
-        let used = serialize_with_flavor(&v, CrcModifier::new(Cobs::try_new(Slice::new(&mut buf)).unwrap(), C32.digest())).unwrap().len();
+        let used = serialize_with_flavor(&v, CrcModifier::new(Cobs::try_new(Slice::new(&mut buf)).unwrap(), C8.digest())).unwrap().len();
         assert!(used == wl, "SPEC: stacked output length");
         let i: usize = kani::any();
         kani::assume(i < wl);
         assert!(buf[i] == want[i], "SPEC: checksum-then-COBS output must be the COBS frame of (plain ++ checksum)");
-        // undo in reverse order
+    }
+
+    /// undoing the layers in reverse order (COBS decode, then CRC-checked decode) recovers the value
+    #[kani::proof]
+    #[kani::unwind(24)]
+    fn stack_undo() {
+        let v: PTup = kani::any();
+        let mut buf = [0u8; 16];
+        let used = serialize_with_flavor(&v, CrcModifier::new(Cobs::try_new(Slice::new(&mut buf)).unwrap(), C8.digest())).unwrap().len();
         let n = cobs::decode_in_place(&mut buf[..used]).unwrap();
-        let back: PTup = from_bytes_crc32(&buf[..n], C32.digest()).unwrap();
+        let back: PTup = de_flavors::crc::from_bytes_u8(&buf[..n], C8.digest()).unwrap();
         assert!(back == v, "SPEC: undoing the layers in reverse order must recover the value");
     }
 
@@ -109,7 +113,7 @@ mod verif_c20 {
         let v: PTup = kani::any();
         let mut want = [0u8; 16];
         let wl = expected_stack(&v, &mut want);
-        let out = serialize_with_flavor(&v, CrcModifier::new(Cobs::try_new(HVec::<16>::new()).unwrap(), C32.digest())).unwrap();
+        let out = serialize_with_flavor(&v, CrcModifier::new(Cobs::try_new(HVec::<16>::new()).unwrap(), C8.digest())).unwrap();
         assert!(out.len() == wl);
         let i: usize = kani::any();
         kani::assume(i < wl);
@@ -121,7 +125,7 @@ mod verif_c20 {
         let v: PTup = kani::any();
         let mut want = [0u8; 16];
         let wl = expected_stack(&v, &mut want);
-        let out = serialize_with_flavor(&v, CrcModifier::new(Cobs::try_new(AllocVec::new()).unwrap(), C32.digest())).unwrap();
+        let out = serialize_with_flavor(&v, CrcModifier::new(Cobs::try_new(AllocVec::new()).unwrap(), C8.digest())).unwrap();
         assert!(out.len() == wl);
         let i: usize = kani::any();
         kani::assume(i < wl);
